@@ -8,7 +8,7 @@
 (* StripedScores API reports column-major offsets (Reduce!Offset), the     *)
 (* linear Scores API plain indices.                                        *)
 (***************************************************************************)
-EXTENDS Reduce, TLC, Json, IOUtils
+EXTENDS Reduce, Score, TLC, Json, IOUtils
 
 VARIABLES l, st
 
@@ -49,7 +49,23 @@ ApplyLin(s, e) ==
   IN [ok |-> maxok /\ argok /\ throk, st |-> s,
       exp |-> [why |-> IF ~maxok THEN "max" ELSE IF ~argok THEN "argmax" ELSE "threshold", max |-> mx, nhits |-> Cardinality(want)]]
 
-Apply(s, e) == IF e.ev = "reduce" THEN ApplyStriped(s, e) ELSE ApplyLin(s, e)
+\* Second sentence of C07: a real score table (full scan of a striped sequence, wildcard column -inf): valid
+\* positions hold their window score, every cell past the last valid position holds -inf (Score!BadCells checks
+\* both), hence the reported float maximum is the best valid position's score whenever one is finite.
+ApplyPadding(s, e) ==
+  IF e.ret # "ok" THEN [ok |-> FALSE, st |-> s, exp |-> [why |-> "panic"]]
+  ELSE
+  LET W == e.K - 1
+      shape == ShapeOK(e)
+      bad == IF shape THEN BadCells(e) ELSE {}
+      un == UnstripeDef(e.pssm, e.seq, W)
+      fin == {i \in 1..Len(un) : un[i] # NINF}
+      maxok == (shape /\ fin # {}) => e.max = <<SetMax({un[i] : i \in fin})>>
+  IN [ok |-> shape /\ bad = {} /\ maxok, st |-> s,
+      exp |-> [why |-> IF ~shape THEN "shape" ELSE IF bad # {} THEN "padding_cell_not_neg_inf_or_wrong_score" ELSE "max_is_not_the_best_valid_score",
+               origin |-> e.origin]]
+
+Apply(s, e) == IF e.ev = "reduce" THEN ApplyStriped(s, e) ELSE IF e.ev = "padding" THEN ApplyPadding(s, e) ELSE ApplyLin(s, e)
 
 TK == INSTANCE TraceKit
 Spec == TK!TKSpec
